@@ -45,7 +45,8 @@ def altloc_variant(rnd, lines, kind=None):
         if not iso:
             kind = 2
         else:
-            picks = rnd.sample(iso, min(len(iso), rnd.randint(1, 2)))
+            anchor = [k for k in iso if items[k][1][3] in SAME_ANCHOR]
+            picks = rnd.sample(anchor, min(len(anchor), 2)) + rnd.sample([k for k in iso if k not in anchor], min(len(iso) - len(anchor), 1))
             for k in list(picks):
                 if items[k][1][3] in SAME_ANCHOR:
                     # two titratable residue types at one position: the last alternate carries the grafted side chain
